@@ -202,6 +202,20 @@ def stub2(x, y=0, tol=7, deep=0):
     return 7
 
 
+OMIT_DEFAULT = {-1: 15.0, 0: 1.5, 1: 0.125, 2: 0.125, 3: 0.125, None: 0.125}     # per tolerance: a default the rounding changes
+_STUBS_D = {}
+
+
+def stub_with_default(d):
+    """def stub_d(x, y=<d>): the float default is OMITTED by the caller whenever y has that value (form 'omit')"""
+    if d not in _STUBS_D:
+        def stub_d(x, y=d):
+            RECV.append([describe(x), describe(y)])
+            return 7
+        _STUBS_D[d] = stub_d
+    return _STUBS_D[d]
+
+
 def make_keymap(klepto, enc):
     K = klepto.keymaps
     if enc == 'raw':
@@ -213,7 +227,11 @@ def make_keymap(klepto, enc):
     return K.hashmap(algorithm='md5')
 
 
-def spell(form, x, y):
+def spell(form, x, y, default=None):
+    if form == 'omit':          # y is left out when it equals the function's default
+        if type(y) is float and y == default:
+            return (x,), {}
+        return (x,), {'y': y}
     if form == 'pos':
         return (x, y), {}
     if form == 'kw':
@@ -225,7 +243,8 @@ def spell(form, x, y):
 
 def run_cached(klepto, group, cfg):
     """cfg: tol, deep, enc, mode ('std'/'safe'/'keygen'), form"""
-    target = stub2 if cfg['form'] == 'kwnames' else stub
+    dflt = OMIT_DEFAULT.get(cfg['tol'], 0.125)
+    target = stub2 if cfg['form'] == 'kwnames' else stub_with_default(dflt) if cfg['form'] == 'omit' else stub
 
     def mk(tol):
         km = make_keymap(klepto, cfg['enc'])
@@ -252,7 +271,7 @@ def run_cached(klepto, group, cfg):
     for c, aliased in calls:
         def args_of():
             memo = {} if aliased else None
-            return spell(cfg['form'], build(c[0], memo), build(c[1], memo))
+            return spell(cfg['form'], build(c[0], memo), build(c[1], memo), dflt)
         e = {'call': c, 'exc': 'none', 'kind': 'none', 'evals': 0, 'kc': -1, 'base': 'none', 'recv': []}
         # the same call without rounding: is it a valid call for this configuration at all?
         a, k = args_of()
@@ -415,7 +434,7 @@ def main(pid, tier):
                 # spelling probes: top-level floats passed by keyword only / positionally, through every decorator class
                 for alg in ALGS:
                     for mode in ('std', 'safe'):
-                        for form in ('allkw', 'kw', 'pos', 'kwnames') if thorough else (('allkw', 'kw', 'kwnames') if mode == 'std' else ('allkw', 'kwnames')):
+                        for form in ('allkw', 'kw', 'pos', 'kwnames', 'omit') if thorough else (('allkw', 'kw', 'kwnames', 'omit') if mode == 'std' else ('allkw', 'kwnames')):
                             for deep in ((False, True) if thorough else (False,)):
                                 jobs.append((g, dict(tol=tol, deep=deep, enc='str', mode=mode, form=form, alg=alg)))
             for which in ('simple', 'shallow', 'deep'):
@@ -444,7 +463,7 @@ def main(pid, tier):
             nrej += 1
             e = t['events'][v[0] - 1]
             rep.reject(signature(t, v), {'config': t['meta'], 'call': e['call'],
-                                         'python_call': repr(spell(t['meta']['form'], build(e['call'][0]), build(e['call'][1]))),
+                                         'python_call': repr(spell(t['meta']['form'], build(e['call'][0]), build(e['call'][1]), OMIT_DEFAULT.get(t['meta'].get('tol'), 0.125))),
                                          'event': e, 'clauses': v[1],
                                          'earlier_calls': [x['call'] for x in t['events'][:v[0] - 1]][-30:]})
         nxt = [dict(t, events=t['events'][:v[0] - 1] + t['events'][v[0]:]) for t, v in pending if len(t['events']) > v[0]]
